@@ -19,7 +19,7 @@ pub(crate) const NONE: usize = Debt::NONE;
 // touched; exactly one atomic step, a CAS (p -> NONE) with Release on success.
 // @harness name=l1_debt_pay props=C02,C01,C10 tier=quick flavour=nostd fn=Debt::pay
 #[cfg_attr(kani, kani::proof)]
-#[cfg_attr(kani, kani::unwind(4))]
+#[cfg_attr(kani, kani::unwind(12))]
 pub(crate) fn l1_debt_pay() {
     let d = Debt::default();
     vassert!(fast_h::peek(&d) == NONE, "debt_default_is_none");
@@ -41,9 +41,9 @@ pub(crate) fn l1_debt_pay() {
     vassert!(r == (content == p), "pay_true_iff_slot_held_the_pointer");
     vassert!(fast_h::peek(&d) == if r { NONE } else { content }, "pay_clears_slot_iff_true_else_unchanged");
     vassert!(model::cnt(0) == 3 && model::cnt(1) == 3, "pay_touches_no_count");
-    vassert!(model::log_len() == 1, "pay_is_exactly_one_atomic_step");
-    let e = model::log_at(0);
-    vassert!(e.kind == model::K_CAS && e.a == p && e.b == NONE, "pay_is_a_cas_from_pointer_to_none");
+    vassert!(model::steps() == 1, "pay_is_exactly_one_atomic_step");
+    let e = model::mon().last;
+    vassert!(e.kind == model::K_CAS && e.a == p && e.b == NONE && e.addr == &d.0 as *const _ as usize, "pay_is_a_cas_from_pointer_to_none");
     vassert!(model::releases(e.ord), "pay_cas_releases");
     vcover!("l1_debt_pay_end");
 }
@@ -84,14 +84,14 @@ fn any_content2() -> usize {
 // writer's own node (foreign node empty); the control state of the foreign node is symbolic in both.
 // @harness name=l1_pay_all_foreign props=C02,C01,C09,C12 tier=quick flavour=nostd timeout=1800 fn=Debt::pay_all+Node::traverse+LocalNode::help+Node::reserve_writer
 #[cfg_attr(kani, kani::proof)]
-#[cfg_attr(kani, kani::unwind(66))]
+#[cfg_attr(kani, kani::unwind(12))]
 pub(crate) fn l1_pay_all_foreign() {
     pay_all_contract(true);
     vcover!("l1_pay_all_foreign_end");
 }
 // @harness name=l1_pay_all_own props=C02,C01,C09,C12 tier=quick flavour=nostd timeout=1800 fn=Debt::pay_all+Node::traverse+LocalNode::help+Node::reserve_writer
 #[cfg_attr(kani, kani::proof)]
-#[cfg_attr(kani, kani::unwind(66))]
+#[cfg_attr(kani, kani::unwind(12))]
 pub(crate) fn l1_pay_all_own() {
     pay_all_contract(false);
     vcover!("l1_pay_all_own_end");
@@ -142,6 +142,7 @@ fn pay_all_contract(foreign_symbolic: bool) {
     let pre_m = list_h::view(mine);
     let held = list_h::count_slots(&pre_f, ptr) + list_h::count_slots(&pre_m, ptr);
     model::log_reset();
+    model::monitor_lw1(ptr);
     unsafe { crate::verif::set_hooks(None, Some(model::record_after)) };
 
     Debt::pay_all::<TP, _>(ptr as *const model::Obj, storage_addr, replacement);
@@ -186,29 +187,9 @@ fn pay_all_contract(foreign_symbolic: bool) {
     } else {
         vassert!(helping_h::same_view(&post_m.helping, &pre_m.helping), "pay_all_frame_own_helping_state");
     }
-    // L-W1 trace: walk the log
-    let n = model::log_len();
-    let mut incs = 0usize;
-    let mut decs = 0usize;
-    let mut paid = 0usize;
-    let mut k = 0;
-    while k < n {
-        let e = model::log_at(k);
-        if e.kind == model::K_INC && e.addr == ptr {
-            incs += 1;
-        }
-        if e.kind == model::K_DEC && e.addr == ptr {
-            decs += 1;
-            vassert!(paid == held, "pay_all_final_release_only_after_all_slots_paid");
-        }
-        if e.kind == model::K_CAS && e.a == ptr && e.b == NONE {
-            vassert!(decs == 0, "pay_all_no_release_before_last_slot_cas");
-            if e.ok {
-                vassert!(incs == paid + 1, "pay_all_every_payment_hands_over_an_increment_already_made");
-                paid += 1;
-            }
-        }
-        k += 1;
-    }
+    // L-W1 trace (the per-event part is asserted online by the monitor)
+    let m = model::mon();
+    let (paid, incs, decs) = (m.lw1_paid, m.lw1_incs, m.lw1_decs);
+    vassert!(m.lw1_paid_at_dec == held, "pay_all_final_release_only_after_all_slots_paid");
     vassert!(paid == held && incs == held + 1 && decs == 1, "pay_all_ledger_prepaid_plus_k_minus_one");
 }
